@@ -16,7 +16,42 @@ inductive Flow where
   | brk
   | cont
   | ret (v : Option Val)
+  | seeking      -- inside a `switch`, the label to start at has not been reached yet (nothing was executed)
   deriving DecidableEq, Repr, Inhabited
+
+/-- how a statement is entered: executing, or looking for the `case` / `default` label of the enclosing `switch`
+(`T` = promoted type of the controlling expression, `v` = its value) -/
+inductive Mode where
+  | run
+  | seekCase (T : Ty) (v : Val)
+  | seekDefault
+  deriving DecidableEq, Repr, Inhabited
+
+/-- a statement that is not a label is skipped while a label is being looked for -/
+def skip (m : Mode) (σ : Var → Val) (k : Unit → Option (Flow × (Var → Val))) : Option (Flow × (Var → Val)) :=
+  match m with
+  | .run => k ()
+  | _ => some (.seeking, σ)
+
+def endOf (m : Mode) (σ : Var → Val) : Option (Flow × (Var → Val)) :=
+  match m with
+  | .run => some (.normal, σ)
+  | _ => some (.seeking, σ)
+
+/-- a `switch` after its first pass (looking for the matching `case`): if nothing matched, a second pass looks for
+`default`; `break` leaves the switch; no label at all = nothing executed -/
+def switchOut (r1 : Option (Flow × (Var → Val))) (pass2 : (Var → Val) → Option (Flow × (Var → Val))) :
+    Option (Flow × (Var → Val)) :=
+  match r1 with
+  | none => none
+  | some (.seeking, σ2) =>
+    match pass2 σ2 with
+    | none => none
+    | some (.seeking, σ3) => some (.normal, σ3)
+    | some (.brk, σ3) => some (.normal, σ3)
+    | some (fl, σ3) => some (fl, σ3)
+  | some (.brk, σ2) => some (.normal, σ2)
+  | some (fl, σ2) => some (fl, σ2)
 
 abbrev SR := Option (Flow × Store)
 
@@ -116,36 +151,54 @@ def incFn (W : World) : Option Expr → Store → Option Store
   | some e => fun σ => dropVal (eval W e σ)
 
 mutual
-def exec (W : World) (fuel : Nat) : Stmt → Store → SR
-  | .expr e, σ => normalOf (dropVal (eval W e σ))
-  | .var id init, σ => normalOf (execVarDef W id init σ)
-  | .block b, σ => execs W fuel b σ
-  | .ifThen c b, σ =>
+def exec (W : World) (fuel : Nat) (m : Mode) : Stmt → Store → SR
+  | .expr e, σ => skip m σ fun _ => normalOf (dropVal (eval W e σ))
+  | .var id init, σ => skip m σ fun _ => normalOf (execVarDef W id init σ)
+  | .block b, σ => skip m σ fun _ => execs W fuel .run b σ
+  | .ifThen c b, σ => skip m σ fun _ =>
     match condOfB W.P (eval W c σ) with
     | none => none
-    | some (true, σ1) => execs W fuel b σ1
+    | some (true, σ1) => execs W fuel .run b σ1
     | some (false, σ1) => some (.normal, σ1)
-  | .ifElse c t f, σ =>
+  | .ifElse c t f, σ => skip m σ fun _ =>
     match condOfB W.P (eval W c σ) with
     | none => none
-    | some (true, σ1) => execs W fuel t σ1
-    | some (false, σ1) => execs W fuel f σ1
-  | .for init cond inc b, σ =>
+    | some (true, σ1) => execs W fuel .run t σ1
+    | some (false, σ1) => execs W fuel .run f σ1
+  | .for init cond inc b, σ => skip m σ fun _ =>
     match execForInit W init σ with
     | none => none
-    | some σ0 => loopW fuel (condFn W cond) (fun s => execs W fuel b s) (incFn W inc) σ0
-  | .while c b, σ => loopW fuel (condFn W (some c)) (fun s => execs W fuel b s) some σ
-  | .doWhile b c, σ => loopD fuel (fun s => execs W fuel b s) (condFn W (some c)) σ
-  | .break, σ => some (.brk, σ)
-  | .continue, σ => some (.cont, σ)
-  | .ret none, σ => some (.ret none, σ)
-  | .ret (some e), σ => retOf (eval W e σ)
-def execs (W : World) (fuel : Nat) : Stmts → Store → SR
-  | .nil, σ => some (.normal, σ)
-  | .cons s r, σ =>
-    match exec W fuel s σ with
+    | some σ0 => loopW fuel (condFn W cond) (fun s => execs W fuel .run b s) (incFn W inc) σ0
+  | .while c b, σ => skip m σ fun _ => loopW fuel (condFn W (some c)) (fun s => execs W fuel .run b s) some σ
+  | .doWhile b c, σ => skip m σ fun _ => loopD fuel (fun s => execs W fuel .run b s) (condFn W (some c)) σ
+  | .break, σ => skip m σ fun _ => some (.brk, σ)
+  | .continue, σ => skip m σ fun _ => some (.cont, σ)
+  | .ret none, σ => skip m σ fun _ => some (.ret none, σ)
+  | .ret (some e), σ => skip m σ fun _ => retOf (eval W e σ)
+  | .switch T c b, σ => skip m σ fun _ =>
+    match eval W c σ with
     | none => none
-    | some (.normal, σ1) => execs W fuel r σ1
+    | some (v, σ1) => switchOut (execs W fuel (.seekCase T v) b σ1) (fun s => execs W fuel .seekDefault b s)
+  | .caseLabel c, σ =>
+    match m with
+    | .run => some (.normal, σ)
+    -- the label's constant (kept as written, e.g. an `IntLiteral`) is compared in the type of the controlling expression
+    | .seekCase T v =>
+      match castVal W.P T (constVal c) with
+      | none => none
+      | some x => if x = v then some (.normal, σ) else some (.seeking, σ)
+    | .seekDefault => some (.seeking, σ)
+  | .defaultLabel, σ =>
+    match m with
+    | .seekCase _ _ => some (.seeking, σ)
+    | _ => some (.normal, σ)
+def execs (W : World) (fuel : Nat) (m : Mode) : Stmts → Store → SR
+  | .nil, σ => endOf m σ
+  | .cons s r, σ =>
+    match exec W fuel m s σ with
+    | none => none
+    | some (.normal, σ1) => execs W fuel .run r σ1
+    | some (.seeking, σ1) => execs W fuel m r σ1
     | some (fl, σ1) => some (fl, σ1)
 end
 
@@ -160,7 +213,7 @@ def retVal : Flow → Val
 /-- run a function body on argument values: (return value, final parameter values, final store) -/
 def callFunc (W : World) (fuel : Nat) (fn : Func) (vals : List Val) (σ : Store) : Option (Val × List Val × Store) :=
   if vals.length ≠ fn.params.length then none else
-  match execs W fuel fn.body (bindParams fn.params vals σ) with
+  match execs W fuel .run fn.body (bindParams fn.params vals σ) with
   | none => none
   | some (fl, σ1) => some (retVal fl, fn.params.map (fun p => σ1 (.loc p.1)), σ1)
 
@@ -222,44 +275,78 @@ def incFn (W : World) (env : Env) : Option Expr → Store → Option Store
   | none => some
   | some e => fun σ => dropVal (eval W env e σ)
 
+/-- the controlling expression of a `switch` is promoted: a literal int becomes `int` -/
+def promote : Ty → Ty
+  | .lit => .int
+  | t => t
+
 mutual
 /-- `rt` = declared return type of the enclosing function (a `return` converts to it) -/
-def exec (W : World) (env : Env) (rt : Ty) (fuel : Nat) : Stmt → Store → SR
-  | .expr e, σ => normalOf (dropVal (eval W env e σ))
-  | .var ty name init, σ =>
+def exec (W : World) (env : Env) (rt : Ty) (fuel : Nat) (m : Mode) : Stmt → Store → SR
+  | .expr e, σ => skip m σ fun _ => normalOf (dropVal (eval W env e σ))
+  | .var ty name init, σ => skip m σ fun _ =>
     match tyOfName ty with
     | none => none
     | some T => normalOf (execVarDef W env T name init σ)
-  | .block b, σ => execs W env rt fuel b σ
-  | .ifThen c b, σ =>
+  | .block b, σ => skip m σ fun _ => execs W env rt fuel .run b σ
+  | .ifThen c b, σ => skip m σ fun _ =>
     match condE W env c σ with
     | none => none
-    | some (true, σ1) => exec W env rt fuel b σ1
+    | some (true, σ1) => exec W env rt fuel .run b σ1
     | some (false, σ1) => some (.normal, σ1)
-  | .ifElse c t f, σ =>
+  | .ifElse c t f, σ => skip m σ fun _ =>
     match condE W env c σ with
     | none => none
-    | some (true, σ1) => exec W env rt fuel t σ1
-    | some (false, σ1) => exec W env rt fuel f σ1
-  | .for init cond inc b, σ =>
+    | some (true, σ1) => exec W env rt fuel .run t σ1
+    | some (false, σ1) => exec W env rt fuel .run f σ1
+  | .for init cond inc b, σ => skip m σ fun _ =>
     match execForInit W env init σ with
     | none => none
-    | some σ0 => loopW fuel (condFn W env cond) (fun s => exec W env rt fuel b s) (incFn W env inc) σ0
-  | .while c b, σ => loopW fuel (condFn W env (some c)) (fun s => exec W env rt fuel b s) some σ
-  | .doWhile b c, σ => loopD fuel (fun s => exec W env rt fuel b s) (condFn W env (some c)) σ
-  | .break, σ => some (.brk, σ)
-  | .continue, σ => some (.cont, σ)
-  | .ret none, σ => some (.ret none, σ)
-  | .ret (some e), σ =>
+    | some σ0 => loopW fuel (condFn W env cond) (fun s => exec W env rt fuel .run b s) (incFn W env inc) σ0
+  | .while c b, σ => skip m σ fun _ => loopW fuel (condFn W env (some c)) (fun s => exec W env rt fuel .run b s) some σ
+  | .doWhile b c, σ => skip m σ fun _ => loopD fuel (fun s => exec W env rt fuel .run b s) (condFn W env (some c)) σ
+  | .break, σ => skip m σ fun _ => some (.brk, σ)
+  | .continue, σ => skip m σ fun _ => some (.cont, σ)
+  | .ret none, σ => skip m σ fun _ => some (.ret none, σ)
+  | .ret (some e), σ => skip m σ fun _ =>
     match typeOf W.sig env e with
     | none => none
     | some te => retOf (convR W.P te rt (eval W env e σ))
-def execs (W : World) (env : Env) (rt : Ty) (fuel : Nat) : Stmts → Store → SR
-  | .nil, σ => some (.normal, σ)
+  | .empty, σ => endOf m σ
+  | .switch c body, σ => skip m σ fun _ =>
+    match body with
+    | .block b =>
+      match typeOf W.sig env c with
+      | none => none
+      | some tc =>
+        match convR W.P tc (promote tc) (eval W env c σ) with
+        | none => none
+        | some (v, σ1) =>
+          switchOut (execs W env rt fuel (.seekCase (promote tc) v) b σ1) (fun s => execs W env rt fuel .seekDefault b s)
+    | _ => none    -- a `switch` whose body is not a compound statement is outside the model
+  | .caseLabel e s, σ =>
+    match m with
+    | .run => exec W env rt fuel .run s σ
+    | .seekCase T v =>
+      -- the label's constant expression is converted to the promoted type of the controlling expression
+      match typeOf W.sig env e with
+      | none => none
+      | some te =>
+        match convR W.P te T (eval W env e σ) with
+        | none => none
+        | some (ev, _) => if ev = v then exec W env rt fuel .run s σ else exec W env rt fuel m s σ
+    | .seekDefault => exec W env rt fuel m s σ
+  | .defaultLabel s, σ =>
+    match m with
+    | .seekCase _ _ => exec W env rt fuel m s σ
+    | _ => exec W env rt fuel .run s σ
+def execs (W : World) (env : Env) (rt : Ty) (fuel : Nat) (m : Mode) : Stmts → Store → SR
+  | .nil, σ => endOf m σ
   | .cons s r, σ =>
-    match exec W env rt fuel s σ with
+    match exec W env rt fuel m s σ with
     | none => none
-    | some (.normal, σ1) => execs W env rt fuel r σ1
+    | some (.normal, σ1) => execs W env rt fuel .run r σ1
+    | some (.seeking, σ1) => execs W env rt fuel m r σ1
     | some (fl, σ1) => some (fl, σ1)
 end
 
@@ -282,7 +369,7 @@ def callFunc (W : World) (env : Env) (fuel : Nat) (fn : Func) (vals : List Val) 
   if vals.length ≠ fn.params.length then none else
   match tyOfName fn.ret, bindParams env fn.params vals σ with
   | some rt, some σ0 =>
-    match execs W env rt fuel fn.body σ0 with
+    match execs W env rt fuel .run fn.body σ0 with
     | none => none
     | some (fl, σ1) =>
       match finalParams env σ1 fn.params with
